@@ -18,7 +18,7 @@ BASE_PROFILE = dict(
         yield_=8, sync=1.0, raise_=0.5, try_=1.2, with_=1.0, read=0.0, ret=0.3, orphan=0.2, probe=0.0, syncitem=0.0, cancelbatch=0.0
     ),
     w_leaf=dict(
-        call=6, item=4, const=1, none=0.6, err=0.3, lazy=0.3, again=0.5, junk=0.1, dbg=0.3
+        call=6, item=4, const=1, none=0.6, err=0.3, lazy=0.3, again=0.5, junk=0.1, dbg=0.3, constexc=0.15
     ),
     w_struct=dict(leaf=5, tuple=2, list=3, dict=1.5),
     ctxs=["actx", "ov", "attr"],
@@ -74,6 +74,7 @@ class Gen(object):
         self.key = 0
         self.faults = {}
         self.ovval = 100
+        self.struct_depth = rnd.choice(prof["struct_depth_choices"]) if prof.get("struct_depth_choices") else prof["struct_depth"]
         self.kind_w = None
         if prof.get("kind_skew"):
             self.kind_w = [rnd.random() ** 2 + 0.05 for _ in range(prof["kinds"])]
@@ -145,6 +146,8 @@ class Gen(object):
             return ["const", rnd.choice([0, 1, "x", None, ["t", self.new_site("v")]])]
         if kind == "none":
             return ["none"]
+        if kind == "constexc":
+            return ["constexc", self.new_site("x")]
         if kind == "err":
             return ["err", self.new_site("e"), rnd.choice(self.p["exc_cls"])]
         if kind == "lazy":
@@ -157,7 +160,7 @@ class Gen(object):
 
     def struct(self, nid, depth, sdepth):
         rnd = self.rnd
-        t = _wchoice(rnd, self.p["w_struct"]) if sdepth < self.p["struct_depth"] else "leaf"
+        t = _wchoice(rnd, self.p["w_struct"]) if sdepth < self.struct_depth else "leaf"
         if t == "leaf":
             return ["leaf", self.leaf(nid, depth)]
         n = rnd.choice([0, 1, 1, 2, 2, 2, 3, 3, 4, 5])
@@ -325,6 +328,18 @@ class Gen(object):
             for _k, s in struct[1]:
                 self._sites_in(s, nid, out)
 
+    def _all_blocks(self, block):
+        yield block
+        for st in block:
+            if st[0] == "try":
+                for b in self._all_blocks(st[1]):
+                    yield b
+                for b in self._all_blocks(st[3]):
+                    yield b
+            elif st[0] == "with":
+                for b in self._all_blocks(st[2]):
+                    yield b
+
     def add_shared(self, prog):
         rnd = self.rnd
         for _ in range(rnd.randint(1, 2)):
@@ -341,6 +356,15 @@ class Gen(object):
             s[1] = ["shared", sid]
             for n, o in rnd.sample(others, min(len(others), rnd.randint(1, 2))):
                 o[1] = ["shared", sid]
+            # some synchronous calls become synchronous waits on that (possibly in-flight) shared task
+            if self.p.get("p_syncshared", 0):
+                for n2, node in enumerate(prog["nodes"]):
+                    if n2 >= target:
+                        break
+                    for blk in self._all_blocks(node["body"]):
+                        for i, st in enumerate(blk):
+                            if st[0] == "sync" and rnd.random() < self.p["p_syncshared"]:
+                                blk[i] = ["syncshared", sid]
 
 
 def instances(prog, cap):
